@@ -52,6 +52,9 @@ def compare(ev, pattern, L, mn_full=None, op_full=None, modes=("bool", "list"), 
     if tag:
         ctx["sub"] = tag
     reported = None
+    second = jasm_io.second_compilation(doc, macros=macros_files)
+    if second:
+        ev.dev("second-compilation-on-same-object-differs", detail=second, **ctx)
     if "bool" in modes:
         r = jasm_io.match(doc, text, mode="bool", search="first", macros=macros_files)
         ev.subcases += 1
